@@ -791,21 +791,49 @@ def const_skipping_paths(fn, start, must_blocks, stop_blocks, cut_edges=(), limi
                 env[l] = v
         t = blk["term"]
         if t["k"] == "call" and t.get("dest") and not t["dest"]["p"]:
-            env.pop(t["dest"]["l"], None)
+            v = None
+            if (t.get("decl") or "").endswith("Try::branch") and t.get("args"):
+                a = opval(env, t["args"][0])
+                if a and a[0] == "variant" and a[1] in ("Ok", "Some"):
+                    v = ("variant", "Continue")
+                elif a and a[0] == "variant" and a[1] in ("Err", "None"):
+                    v = ("variant", "Break")
+            if v is None or t["dest"]["l"] in escaped:
+                env.pop(t["dest"]["l"], None)
+            else:
+                env[t["dest"]["l"]] = v
         return env
 
     def succs(b, env):
+        """[(successor, env on that edge)]"""
         t = fn.blocks[b]["term"]
         if t["k"] == "switch":
+            from l4sa.core import SwitchInfo
             v = opval(env, t["discr"])
+            si = SwitchInfo(fn, b)
             if v is not None:
-                from l4sa.core import SwitchInfo
-                si = SwitchInfo(fn, b)
                 want = v[1]
+                if si.is_bool and si.negated and isinstance(want, bool):
+                    want = not want
                 tg = [tt for lab, tt in si.labelled_edges() if lab == want]
                 if len(tg) == 1:
-                    return tg
-        return list(fn.succ[b])
+                    return [(tg[0], env)]
+            # an unknown enum value becomes known on the edge taken: `match r { Ok(..) => .., Err(e) => break Err(e) }`
+            pl = t["discr"].get("copy") or t["discr"].get("move")
+            src = None
+            if pl and not pl["p"]:
+                for st in fn.blocks[b]["stmts"]:
+                    if st["k"] == "assign" and st["lhs"]["l"] == pl["l"] and not st["lhs"]["p"] and st["rv"]["k"] == "discr" and not st["rv"]["place"]["p"]:
+                        src = st["rv"]["place"]["l"]
+            if src is not None and src not in escaped and not si.is_bool:
+                out = []
+                for lab, tt in si.labelled_edges():
+                    e2 = dict(env)
+                    if isinstance(lab, str):
+                        e2[src] = ("variant", lab)
+                    out.append((tt, e2))
+                return out
+        return [(x, env) for x in fn.succ[b]]
 
     from collections import deque
     hit = set()
@@ -826,9 +854,8 @@ def const_skipping_paths(fn, start, must_blocks, stop_blocks, cut_edges=(), limi
             hit.add(b)
             continue
         env = step(dict(envt), fn.blocks[b])
-        e2 = tuple(sorted(env.items()))
-        for sx in succs(b, env):
+        for sx, en in succs(b, env):
             if (b, sx) in cut or sx in must:
                 continue
-            qd.append((sx, e2))
+            qd.append((sx, tuple(sorted(en.items(), key=lambda kv: (kv[0], str(kv[1]))))))
     return hit
